@@ -119,10 +119,12 @@ def run_case(
     graphs: list | None = None,
     cache: Any = None,
     ctl: Any = None,
+    late_renames: bool = False,
 ) -> dict:
     """Build the program with real hypergraph objects, run it, return the canonical observation."""
     cfg = cfg or {}
     env = env or Env()
+    env.late_renames = env.late_renames or late_renames
     if async_bodies is None:
         async_bodies = runner == "async"
     if graphs is None:
